@@ -397,7 +397,13 @@ def _eval_cases(check: Check, cases: List[dict], with_model: bool, stats: dict):
         try:
             answers = run_driver(flat)
         except DriverError as e:
-            driver_problem = str(e)
+            # a driver process that died for a reason outside the model (memory pressure, a signal) must not
+            # become an alarm: run it once more; only a failure that repeats is reported as a broken tie
+            log(f"driver failed once, retrying: {str(e)[:300]}")
+            try:
+                answers = run_driver(flat)
+            except DriverError as e2:
+                driver_problem = str(e2)
     disagreements: List[dict] = []
     violations: List[dict] = []
     pos = 0
